@@ -23,13 +23,6 @@ size_t g_dim;
 #define OK_SUB(a, b) (!__CPROVER_overflow_minus((T)(a), (T)(b)))
 #define OK_MUL(a, b) (!__CPROVER_overflow_mult((T)(a), (T)(b)))
 #define OK_DIV(a, b) ((b) != 0 && !((a) == T_MIN && (b) == -1))
-#elif T_PROMOTES && !T_SIGNED && defined(T_IS_8BIT)
-/* 8-bit unsigned: arithmetic happens in int and cannot overflow (|x| <= 255, at most 4 products of two components) */
-#define OK_NEG(a) 1
-#define OK_ADD(a, b) 1
-#define OK_SUB(a, b) 1
-#define OK_MUL(a, b) 1
-#define OK_DIV(a, b) ((b) != 0)
 #elif !T_SIGNED && !T_PROMOTES
 /* unsigned, at least as wide as int: wrap-around arithmetic, always defined */
 #define OK_NEG(a) 1
@@ -38,7 +31,7 @@ size_t g_dim;
 #define OK_MUL(a, b) 1
 #define OK_DIV(a, b) ((b) != 0)
 #else
-#error "C20_vec.h: element type not supported (int64_t, uint64_t, uint32_t, uint8_t)"
+#error "C20_vec.h: element type not supported (int64_t, uint64_t, uint32_t)"
 #endif
 
 /* per-component clauses (c = component name) */
@@ -125,6 +118,7 @@ __CPROVER_requires(__CPROVER_is_fresh(xy, sizeof(Vector2)) && EQG2(xy, g_s) && z
 __CPROVER_ensures(RV.x == xy->x && RV.y == xy->y && RV.z == z)
 __CPROVER_assigns();
 /* cross product: (a2*b3 - a3*b2, a3*b1 - a1*b3, a1*b2 - a2*b1) */
+#define ORTH(p, r) ((UT)(p)->x * (UT)(r).x + (UT)(p)->y * (UT)(r).y + (UT)(p)->z * (UT)(r).z)
 #define OK_CROSS1(p, q, r, s) (OK_MUL(p, q) && OK_MUL(r, s) && OK_SUB((p) * (q), (r) * (s)))
 Vector3 Vector3_cross(const Vector3* self, const Vector3* other)
 __CPROVER_requires(__CPROVER_is_fresh(self, sizeof(Vector3)) && __CPROVER_is_fresh(other, sizeof(Vector3)) &&
@@ -134,6 +128,13 @@ __CPROVER_requires(OK_CROSS1(self->y, other->z, self->z, other->y) && OK_CROSS1(
 __CPROVER_ensures(RV.x == (T)(self->y * other->z - self->z * other->y))
 __CPROVER_ensures(RV.y == (T)(self->z * other->x - self->x * other->z))
 __CPROVER_ensures(RV.z == (T)(self->x * other->y - self->y * other->x))
+/* orthogonal to both operands: a . (a x b) == 0 and b . (a x b) == 0, dot product evaluated in Z/2^n (UT = unsigned twin of
+ * T).  Stated for the unsigned instantiations, where no operation is undefined; the signed instantiations execute the
+ * same two's-complement operations bit for bit whenever no overflow occurs. */
+#if !T_SIGNED
+__CPROVER_ensures(ORTH(self, RV) == 0)
+__CPROVER_ensures(ORTH(other, RV) == 0)
+#endif
 __CPROVER_assigns();
 #include "contracts/C20_vec_ops.h"
 #undef V
